@@ -632,6 +632,44 @@ fn corpus() -> Vec<(&'static str, Vec<Op>)> {
     ]
 }
 
+
+/// One AddSwapRoutes message may carry several routes, also several for the same (offer, ask) key. Whatever the message looks like: it is
+/// either refused and stores nothing, or every route the router reports afterwards has only registered pairs as hops.
+/// (Monitor-only probe: the model's AddRoute op carries one route.)
+fn multi_route_message_probe(out: &mut Out) {
+    let mut w = world19(&universe_spec("main"));
+    for op in [Op::CreatePair(0, 1), Op::CreatePair(1, 2)] { let _ = w.exec(0, &op); }
+    let adm = admin();
+    let hop = |w: &W19, x: usize, y: usize| rt::SwapOperation::TerraSwap { offer_asset_info: w.u[x].clone(), ask_asset_info: w.u[y].clone() };
+    let route = |w: &W19, o: usize, a: usize, hops: &[(usize, usize)]| rt::SwapRoute { offer_asset_info: w.u[o].clone(), ask_asset_info: w.u[a].clone(), swap_operations: hops.iter().map(|(x, y)| hop(w, *x, *y)).collect() };
+    // (message, description): pairs (0,1) and (1,2) exist; (0,3), (3,1), (0,2) do not
+    let msgs: Vec<(Vec<rt::SwapRoute>, &str)> = vec![
+        (vec![route(&w, 0, 1, &[(0, 1)]), route(&w, 0, 1, &[(0, 3), (3, 1)])], "valid route, then a route with unregistered hops for the same key"),
+        (vec![route(&w, 0, 1, &[(0, 3), (3, 1)]), route(&w, 0, 1, &[(0, 1)])], "route with unregistered hops, then a valid route for the same key"),
+        (vec![route(&w, 0, 2, &[(0, 1), (1, 2)]), route(&w, 1, 2, &[(1, 2)]), route(&w, 0, 2, &[(0, 2)])], "two valid routes and an unregistered direct hop repeating the first key"),
+        (vec![route(&w, 0, 2, &[(0, 1), (1, 2)]), route(&w, 1, 2, &[(1, 2)])], "two valid routes with different keys"),
+        (vec![route(&w, 0, 1, &[(0, 1)]), route(&w, 0, 1, &[(0, 1)])], "the same valid route twice"),
+    ];
+    for (k, (routes, what)) in msgs.into_iter().enumerate() {
+        let rp = json!({"kind": "multi_route_message_probe", "message": k, "what": what, "script": "pairs (a0,a1) and (a1,a2) registered; AddSwapRoutes with several routes in ONE message, some for the same (offer, ask) key"});
+        let r = w.b.router.clone();
+        let accepted = catch(|| w.b.app.execute_contract(adm.clone(), r.clone(), &rt::ExecuteMsg::AddSwapRoutes { swap_routes: routes.clone() }, &[])).is_some();
+        out.monitor_evals += 1;
+        // every stored route: all hops registered
+        for (o, a) in [(0usize, 1usize), (0, 2), (1, 2)] {
+            let q: Result<Vec<rt::SwapOperation>, _> = w.b.app.wrap().query_wasm_smart(&w.b.router, &rt::QueryMsg::SwapRoute { offer_asset_info: w.u[o].clone(), ask_asset_info: w.u[a].clone() });
+            if let Ok(resp) = q {
+                for h in resp.iter() {
+                    let rt::SwapOperation::TerraSwap { offer_asset_info, ask_asset_info } = h;
+                    let registered: Result<PairInfo, _> = w.b.app.wrap().query_wasm_smart(&w.b.factory, &white_whale_std::pool_network::factory::QueryMsg::Pair { asset_infos: [offer_asset_info.clone(), ask_asset_info.clone()] });
+                    if registered.is_err() { out.monitor_fail("C19", &format!("after an AddSwapRoutes message ({}; accepted = {}) the router stores a route with a hop that is no registered pair", what, accepted), rp.clone()); }
+                }
+            }
+        }
+        out.count(&format!("probe:multi_route_message:{}", if accepted { "accepted" } else { "refused" }));
+    }
+}
+
 pub fn run(args: &Args) {
     let mut out = Out::new(&args.out);
     out.rule = "one case = one history of 10..24 create / remove / re-create / route / hop operations on the real factories and router over 7 native and cw20 assets given in every order \
@@ -639,6 +677,7 @@ pub fn run(args: &Args) {
     if let Some(path) = &args.replay {
         let j = read_replay(path);
         let fi = &j["failing_input"];
+        if fi["kind"].as_str() == Some("multi_route_message_probe") { replay_probe(&mut out, &mut |o| multi_route_message_probe(o)); }
         let uni = fi["universe"].as_str().unwrap_or("main").to_string();
         let ops: Vec<Op> = serde_json::from_value(fi["ops"].clone()).expect("failing_input.ops");
         std::env::set_var("WWVERIF_ERRORS", "1");
@@ -652,6 +691,7 @@ pub fn run(args: &Args) {
     }
     let mut rng = Rng::new(args.seed);
     for (uni, h) in corpus() { run_history(&mut out, uni, &h, true); }
+    multi_route_message_probe(&mut out);
     for _ in 0..args.n { let h = gen_history(&mut rng, 7); run_history(&mut out, "main", &h, true); }
     out.finish();
 }
